@@ -345,6 +345,12 @@ func (f *frame) pureCall(in *ssa.Call) {
 			}
 			setT(r[0], r[1])
 			return
+		case "isstatus":
+			setT(x.isStatus(args[0][0].T), x.isStatus(args[0][1].T))
+			return
+		case "statuscode":
+			setT(x.statusCode(args[0][0].T), x.statusCode(args[0][1].T))
+			return
 		case "strdigits":
 			setT(sx("str_isdigits", args[0][0].T), sx("str_isdigits", args[0][1].T))
 			x.assumed["axioms for str_isdigits/str_parsedec/decstr (decimal strings)"] = true
